@@ -1,7 +1,7 @@
 """C02 - Hermitian: U unitary at every order, U^dagger its adjoint, H_tilde Hermitian."""
 from .common import Decision, run_units
 from .series_props import fold_canaries
-from .hermitian_common import specs_hermitian, LEAN_SETTING_NOTE
+from .hermitian_common import specs_hermitian, LEAN_SETTING_NOTE, LEAN_VACUITY
 
 LEAN = ["PV.pairing", "PV.unit_left", "PV.unit_right", "PV.C02_unit_left", "PV.C02_unit_right", "PV.C02_adjoint", "PV.C02_Htilde_star",
         "PV.TB.toMain", "PV.TB.C02_unit_left", "PV.TB.C02_unit_right", "PV.TB.C02_adjoint", "PV.TB.C02_Htilde_star", "PV.TB.pairing"]
@@ -10,7 +10,7 @@ LEAN = ["PV.pairing", "PV.unit_left", "PV.unit_right", "PV.C02_unit_left", "PV.C
 def check(tier, seed):
     d = Decision("C02", tier, seed)
     d.add_units(fold_canaries(run_units(specs_hermitian(tier))))
-    d.add_lean(LEAN)
+    d.add_lean(LEAN + LEAN_VACUITY)
     d.assumptions += [LEAN_SETTING_NOTE, "input precondition: H is Hermitian and masks are symmetric",
                       "bridge C18 -> Lean for the product declared hermitian: if U'^dagger - star U' vanishes below order n then the "
                       "hermitian-flagged product equals the plain product below order n+1 (both factors start at order 1)"]
